@@ -49,14 +49,16 @@ KANI_UNITS["C11"] = dict(
     appends=[("crates/varpulis-runtime/src/engine/evaluator.rs", "__vpv_c11", "contracts/kani/c11.rs")],
     grade="K-complete", level="other", timeout=4800, harness_timeout=600,
     cell_grades={"c11_bin_add_ss": "K-bounded(2-byte string literals)"},
+    native_grade="bounded(native exhaustive enumeration: 49 built-ins x argument tuples of length <= 3 over a pool of 16 values; Index / Slice / If over arrays and strings of length 0..=3 with 11 bounds)",
     functions=["varpulis-runtime/src/engine/evaluator.rs: eval_expr_with_functions (Binary arm: all 24 BinOp variants; Unary arm: all 3; literal arms)",
                "varpulis-runtime/src/engine/evaluator.rs: eval_builtin_function (abs sqrt floor ceil round pow log log10 exp sin cos min max is_null is_int type_of)"],
     explanation=("One cell per (operator, operand kinds) / built-in: the REAL evaluator is run on an expression whose operands are Int/Float/Bool literals "
                  "with full-domain i64/f64 payloads (incl. i64::MIN/MAX, -1, 0, NaN, +-inf) — built-ins additionally take a symbolic kind; the obligation is that "
                  "none of Kani's panic checks (arithmetic overflow, division/remainder by zero or overflow, index/slice bounds, unwrap on None, explicit panic) "
-                 "is reachable. Loop-free cells are complete. NOT covered (measured: these cells did not finish in 25 min of CBMC each — Vec<Value>/String clone and drop glue, and one "
-                 "unrolling of the recursive evaluator per tree level): Index / Slice / If / Coalesce arms, get / set / substring / to_int / to_float; also: operands read from event fields (hash-map lookup is out of CBMC's reach), "
-                 "string built-ins over arbitrary strings, `tan` (unsupported foreign call in Kani), user-defined function statements, range materialisation (excluded by the property)."),
+                 "is reachable. Loop-free cells are complete. Index / Slice / If and the string and collection built-ins (Kani cells dropped: Vec<Value> / String clone and drop glue, CBMC did not finish "
+                 "in 25 min each) are covered by BOUNDED STAND-INS run natively: every built-in except range on every argument tuple of length <= 3 over 16 boundary values, and "
+                 "Index / Slice on arrays and (non-ASCII) strings of length 0..=3 with every bound in {none, i64::MIN, -2..=5, i64::MAX}, return without panicking. NOT covered: operands "
+                 "read from event fields, user function statements, `tan` under Kani (foreign call), range materialisation (excluded by the property)."),
     assumptions=EVAL_STUBS + ["CBMC's own float-model checks (NaN on ..., float overflow) are not Rust panics and are ignored by class"],
 )
 
